@@ -18,6 +18,7 @@ def run(ctx, R, tier):
     assign_ops(F, R)
     c17.mapping(F, R)
     speed_units(F, R)
+    semitones(F, R)
     # the easings are built from powers: their domain conditions are obligations (A.singular)
     from ..enginea import run_singular_only
     run_singular_only(R, F, lambda fn: fn.startswith('tween::'), floor=2)
@@ -312,3 +313,17 @@ def speed_units(F, R, rule='B.C19.speed-units'):
             bad = 'for a target in %s the start value is not converted with as_%s(): %s' % (v, snake, ret[:140])
     R.check(bad is None and seen == {'SecondsPerTick', 'TicksPerSecond', 'TicksPerMinute'}, rule, 'interpolate',
             'ClockSpeed::interpolate: %s' % (bad or 'units seen: %s' % sorted(seen)), detail={'units': sorted(seen)}, where=b.file)
+
+
+def semitones(F, R):
+    """"Twelve semitones double the playback rate": the conversion is 2^(semitones / 12) itself - one power, so that upward and
+    downward shifts are each other's inverse."""
+    b = None
+    for x in F.bodies:
+        if x.krate == 'kira' and 'From<semitones::Semitones> for playback_rate::PlaybackRate>' in x.path and x.path.endswith('::from'):
+            b = x
+    if not R.check(b is not None, 'B.C19.semitones', 'anchor', 'From<Semitones> for PlaybackRate not found'):
+        return
+    rets = [str(p.ret).replace(' ', '') for p in explore(b) if p.end == 'return']
+    ok = len(rets) == 1 and 'PlaybackRate(std::f64::<implf64>::powf(2.0,Div(' in rets[0] and rets[0].endswith(',12.0)))')
+    R.check(ok, 'B.C19.semitones', 'from', 'Semitones -> PlaybackRate is %s, not PlaybackRate(2^(semitones / 12))' % [r[:100] for r in rets], detail={'returns': rets})
